@@ -15,6 +15,16 @@ CHECKS = {
            "finite decision tables evaluated on enumerated CFG paths; iteration-guard and term checks", "DESIGN.md 5.4"),
  "C05": _c("Closed-world classification of every failure exit of the authorization path: each must be selected by one of the denials the rules allow; no panic exits; irrelevant fields never read. A necessary structural condition for completeness, modulo correctness of Covers, IsValidAt, Match, ToIPLD (C15, C04, C11).", TB,
            "exhaustive enumeration and classification of failure exits over CFG paths + field-read reachability", "DESIGN.md 5.5"),
+ "C12": _c("Decides structural necessary conditions of compositional resolution: every segment literal Parse can build is dispatched by resolve to the kind it intends (abstract evaluation of the dispatch predicates on the literal's fields, including regex-derived non-emptiness); no node is returned from inside the loop over all segments; field and index failure exits go through the optional idiom; slice index resolution uses the length of the collection that is sliced; Select = resolve. Index and slice arithmetic is not decided.", TB,
+           "SSA path-fact analysis + abstract evaluation of dispatch predicates over producer literals (sibling/producer-consumer agreement), regexp/syntax minimum-length", "DESIGN.md 5.12"),
+ "C13": _c("Decides that no step of the two-pointer glob matcher consumes a '*' or '\\' of the pattern as a literal (step classification of every loop path by how the indices advance, with the facts each kind of step must carry), that parseGlob rejects a trailing lone backslash, and that glob values only come from parseGlob. Language equality is not decided; another algorithm is reported as unrecognised.", TB,
+           "SSA path-fact analysis: classification of loop back-edge paths by loop-carried value updates; who-may-convert check", "DESIGN.md 5.13"),
+ "C14": _c("Decides that the selector tokenizer is a partition of its input (no pending tail can be dropped on any exit path), that every token produces exactly one segment printing as that token or an error, and that the policy tuple decoder and encoder agree on field positions and arities for each of the five statement structs. Deep equality of round trips is not decided.", TB,
+           "SSA path-fact analysis of loop-carried accumulators; producer/consumer position tables extracted from both codecs", "DESIGN.md 5.14"),
+ "C15": _c("Decides the finite decision tables of Covers (textual prefix AND one of three boundary facts, roles checked; no spurious false) and Parse (three rejection conditions, nothing else rejected, input returned unchanged), and the single separator constant. The order axioms follow from that shape for valid commands but are not themselves decided.", TB,
+           "finite decision tables evaluated on enumerated CFG paths", "DESIGN.md 5.15"),
+ "C19": _c("Decides the must-pass-through and who-may-call structure that the confidentiality/authentication claims rest on: key validation and a fresh crypto/rand nonce dominate Seal, the same nonce array is sealed and prefixed, Open's ok result guards the plaintext, validateKey's decision table, plaintext confinement in AddEncrypted, option wiring. Cryptographic strength is the trusted contract of NaCl secretbox.", TB,
+           "SSA path-fact analysis (must-pass-through, operand identity), who-may-call over resolved callees, decision table", "DESIGN.md 5.19"),
 }
 
 NOT_APPLICABLE = {}
